@@ -16,6 +16,7 @@ type ProvableCfg struct {
 	MinPub     int
 	PFail      int // percent of unbiased (likely failing) choices; default 4
 	AllowConst bool
+	NoSecret   bool // every input public (or constant)
 }
 
 // provableWeights keeps circuits small (tens of constraints): no Cmp / AssertLE /
@@ -44,6 +45,12 @@ func GenProvable(cfg ProvableCfg) *rapid.Generator[*prog.Program] {
 	kinds := []string{"p", "s", "s"}
 	if cfg.AllowConst {
 		kinds = []string{"p", "s", "s", "c"}
+	}
+	if cfg.NoSecret {
+		kinds = []string{"p"}
+		if cfg.AllowConst {
+			kinds = []string{"p", "p", "c"}
+		}
 	}
 	base := prog.Gen(prog.GenConfig{Q: cfg.Q, MinIn: cfg.MinPub, MaxIn: 5, MinOps: 1, MaxOps: cfg.MaxOps, MaxOut: 2,
 		Kinds: kinds, Weights: provableWeights, PFail: cfg.PFail, NoHeavy: true, MinPub: cfg.MinPub})
